@@ -19,6 +19,7 @@ package main
 // Local names, statement order, helper extraction and control-flow shape do not matter.
 
 import (
+	"bufio"
 	"bytes"
 	"fmt"
 	"go/ast"
@@ -610,7 +611,47 @@ func c17FactsNeedAmplification() bool {
 	return false
 }
 
+// c17RunLines executes the payloads of a file (one per line: idx<TAB>payload) in ONE process and prints idx<TAB>result.
+// With marker = true a stat of the non-existing path /c17-marker/<idx> precedes every line (seen by strace).
+func c17RunLines(file string, marker bool) int {
+	f, err := os.Open(file)
+	if err != nil {
+		fmt.Fprintln(os.Stderr, err)
+		return 1
+	}
+	defer f.Close()
+	c17Setup()
+	fmt.Printf("#base\t%s\n", c17Base)
+	sc := bufio.NewScanner(f)
+	sc.Buffer(make([]byte, 1<<20), 1<<26)
+	for sc.Scan() {
+		parts := strings.SplitN(sc.Text(), "\t", 2)
+		if len(parts) != 2 {
+			continue
+		}
+		if marker {
+			os.Stat("/c17-marker/" + parts[0])
+		}
+		res := func() (r string) {
+			defer func() {
+				if e := recover(); e != nil {
+					r = "PANIC " + oneLine(fmt.Sprint(e))
+				}
+			}()
+			return c17Run(parts[1])
+		}()
+		fmt.Printf("%s\t%s\n", parts[0], res)
+	}
+	if marker {
+		os.Stat("/c17-marker/end")
+	}
+	return 0
+}
+
 func c17ToolMain(args []string) int {
+	if len(args) == 2 && (args[0] == "runlines" || args[0] == "runlines-marked") {
+		return c17RunLines(args[1], args[0] == "runlines-marked")
+	}
 	if len(args) != 2 || args[0] != "extract" {
 		fmt.Fprintln(os.Stderr, "usage: harness C17 -tool extract <out.lean>")
 		return 2
@@ -643,13 +684,27 @@ func c17ToolMain(args []string) int {
 	b.WriteString("\n]\n\n")
 	b.WriteString("/-- roots positively refuted: the value passes through a transformation whose discarded error moves the root to another directory -/\ndef refuted : List String :=\n  (locatorRoots.filter fun f => f.2.2.1 == \"REFUTED\").map fun f => f.1 ++ \": \" ++ f.2.2.2.1\n\n")
 	b.WriteString("/-- roots the extractor could not follow (not a violation; the T / U / J cases are amplified) -/\ndef notEstablished : List String :=\n  (locatorRoots.filter fun f => f.2.2.1 == \"unknown\").map fun f => f.1 ++ \": \" ++ f.2.2.2.1\n\n")
-	toolIdent := true
+	opt := func(v string, found bool) string {
+		switch {
+		case !found:
+			return "none"
+		case v == c17OK:
+			return "some true"
+		case v == c17Refuted:
+			return "some false"
+		}
+		return "none"
+	}
+	toolV, toolFound := c17OK, false
 	for _, f := range facts {
-		if strings.HasSuffix(f.Site, "CreateRuntimeProvider") && f.Identity == c17Refuted {
-			toolIdent = false
+		if strings.HasSuffix(f.Site, "CreateRuntimeProvider") {
+			toolFound = true
+			if f.Identity == c17Refuted || toolV == c17OK && f.Identity != c17OK {
+				toolV = f.Identity
+			}
 		}
 	}
-	fmt.Fprintf(&b, "/-- `CLIInterpreter.CreateRuntimeProvider`: the locator's Root is the configured `Dir` value itself (not refuted) -/\ndef toolRootIsDir : Bool := %v\n\n", toolIdent)
+	fmt.Fprintf(&b, "/-- `CLIInterpreter.CreateRuntimeProvider`: is the locator's Root the configured `Dir` value itself?\n    `some true` established, `some false` refuted, `none` not established (no literal found / not followed) -/\ndef toolRootFact : Option Bool := %s\n\n/-- what the driver instantiates the model with: not refuted -/\ndef toolRootIsDir : Bool := toolRootFact.getD true\n\n", opt(toolV, toolFound))
 	b.WriteString("/-- every call reachable from `FileImportLocator.Resolve` that touches the file system (or cannot be classified):\n    (site, call, verdict, reason). `configured` = after the containment test, guarded by its result, argument = the tested value. -/\ndef resolveCalls : List (String × String × String × String) := [")
 	for i, f := range openFacts {
 		if i > 0 {
@@ -675,7 +730,23 @@ func c17ToolMain(args []string) int {
 		}
 	}
 	b.WriteString("\n]\n\n")
-	fmt.Fprintf(&b, "/-- the facts the import model is instantiated with (`true` = not refuted) -/\ndef importFacts : Ecal.Path.ImportFacts :=\n  { receiverIsConfiguredLocator := %v, argumentIsPathValue := %v }\n\n", recvOK, argOK)
+	rv, av, found := c17OK, c17OK, false
+	for _, f := range impFacts {
+		if f.Receiver == "-" {
+			continue
+		}
+		found = true
+		if f.RecvVerdict == c17Refuted || rv == c17OK && f.RecvVerdict != c17OK {
+			rv = f.RecvVerdict
+		}
+		if f.ArgVerdict == c17Refuted || av == c17OK && f.ArgVerdict != c17OK {
+			av = f.ArgVerdict
+		}
+	}
+	fmt.Fprintf(&b, "/-- is the receiver of every `Resolve` call reachable from `importRuntime.Eval` the provider's configured locator?\n    (`none`: not established, e.g. no call found) -/\ndef receiverFact : Option Bool := %s\n\n", opt(rv, found))
+	fmt.Fprintf(&b, "/-- is its argument `fmt.Sprint` of the value of the path expression (child 0)? -/\ndef argumentFact : Option Bool := %s\n\n", opt(av, found))
+	b.WriteString("/-- what the driver instantiates the import model with: every fact that is not refuted -/\ndef importFacts : Ecal.Path.ImportFacts :=\n  { receiverIsConfiguredLocator := receiverFact.getD true, argumentIsPathValue := argumentFact.getD true }\n\n")
+	_, _ = recvOK, argOK
 	b.WriteString("end Ecal.Gen.C17\n")
 	if err := os.WriteFile(args[1], []byte(b.String()), 0644); err != nil {
 		fmt.Fprintln(os.Stderr, err)
